@@ -272,6 +272,7 @@ def readIns (file : Bytes) : (n : Nat) → (pos : Nat) → (sid : Nat) → Optio
           else
             let hdrs := decodeN 40 decSmpHdr nsm hb
             if hdrs.any (fun h => h.length > 0x10000000) then none
+            else if hdrs.any (fun h => h.lstart ≥ 0x80000000 ∨ h.llen ≥ 0x80000000 ∨ h.lstart + h.llen ≥ 0x80000000) then none
             else if hdrs.any (fun h => h.reserved = 0xad) then none      -- ADPCM: not modelled
             else
               let subs := hdrs.zipIdx.map fun (h, j) => hdrSub (sid + j) h
